@@ -49,14 +49,14 @@ Proof.
 Qed.
 
 (* uniform_discr(min_pt, max_pt, shape, nodes_on_bdry=...) with the default weighting, exponent 2 *)
-Theorem uniform_discr_one_norm q blas (specs : list axspec) :
+Theorem uniform_discr_one_norm q (specs : list axspec) :
   specs <> [] -> Forall spec_ok specs ->
   let axes := map axis_of specs in
   let one := repeat 1 (npoints axes) in
   (q_unweighted_skips q = false \/ cell_volume axes <> 1) ->
-  leaf_inner q (LDiscr blas axes LDefault (PFin 2)) one one
+  leaf_inner q (LDiscr axes LDefault (PFin 2)) one one
     = Ok (fold_right (fun s acc => (s_b s - s_a s) * acc) 1 specs) /\
-  leaf_norm q (LDiscr blas axes LDefault (PFin 2)) one
+  leaf_norm q (LDiscr axes LDefault (PFin 2)) one
     = Ok (sqrt (fold_right (fun s acc => (s_b s - s_a s) * acc) 1 specs)).
 Proof.
   intros Hne Hspecs axes one Hq.
@@ -65,16 +65,16 @@ Proof.
     destruct IH as [I1 I2]. destruct (axis_of_ok s Hs) as [O E]. cbn [map]. split; constructor; assumption. }
   destruct Hok as [Hok Hex].
   assert (Hane : axes <> []) by (unfold axes; destruct specs; [congruence | cbn; congruence]).
-  pose proof (discr_one_inner q blas axes Hok Hex Hane Hq) as Ein. fold one in Ein.
+  pose proof (discr_one_inner q axes Hok Hex Hane Hq) as Ein. fold one in Ein.
   rewrite <- extent_volume_specs. fold axes. split; [exact Ein|].
   assert (Hlen : length one = npoints axes) by (unfold one; apply repeat_length).
-  assert (Hokp : leaf_okp (LDiscr blas axes LDefault (PFin 2)) (length one)).
+  assert (Hokp : leaf_okp (LDiscr axes LDefault (PFin 2)) (length one)).
   { cbn [leaf_okp pvalid]. repeat split; try lia; try assumption.
     destruct axes as [|ax0 axes0] eqn:Ea; [congruence|]. cbn [d_weight tw_ok]. rewrite <- Ea in *.
     apply cell_volume_pos; assumption. }
   assert (Hone : one <> []).
   { pose proof (npoints_pos axes Hok). unfold one. destruct (npoints axes); [lia | cbn; congruence]. }
-  rewrite (leaf_norm_value q _ one Hokp Hone). f_equal.
+  rewrite (leaf_norm_value q _ one Hokp). f_equal.
   destruct (leaf_norm2_inner q _ one Hokp eq_refl) as [E1 E2].
   rewrite E2. f_equal. pose proof Ein as Ein'. rewrite E1 in Ein'. injection Ein' as Ein'. exact Ein'.
 Qed.
